@@ -373,8 +373,14 @@ func checkEnvelope(data []byte, expectedType msgType) ([]byte, error) {
 		headerLen  = int(data[5])
 		flags      = data[6]
 		actualType = msgType(data[7])
-		payload    = data[headerLen:]
 	)
+
+	// The payload starts at headerLen, which must cover the fixed header and
+	// cannot point past the end of the data.
+	if headerLen < envelopeMinHeaderLen || headerLen > len(data) {
+		return nil, fmt.Errorf("invalid envelope header length: %d", headerLen)
+	}
+	payload := data[headerLen:]
 
 	if actualType != expectedType {
 		return nil, fmt.Errorf("MsgType mismatch: expected %v, got %v", expectedType, actualType)
